@@ -210,7 +210,7 @@ pub fn run(args: &Args) {
         20,
     );
     let rt = tokio::runtime::Builder::new_multi_thread().worker_threads(4).enable_all().build().expect("rt");
-    let n = args.n(4, 200);
+    let n = args.n(16, 300);
     rt.block_on(async {
         for c in 0..n {
             case(args.seed, c, &mut rep).await;
